@@ -48,6 +48,15 @@ ArrProgs == { Call1("reverse", X), Call1("distinct", X), Call1("count", X), Call
               Call1("distinct", NCall(V("append"), <<X, X>>)),
               NCmpOp("=", NCall(V("count"), <<Call1("shuffle", X)>>), Call1("count", X)),
               NCmpOp("=", Call1("reverse", Call1("reverse", X)), Call2("append", X, NArray(<<>>))) }
+\* results built from one base array are independent values (no shared buffers)
+Bases == { X, Call2("map", X, Lam(<<"v">>, V("v"))), Call2("filter", X, Lam(<<"v">>, NBool(TRUE))), Call2("append", X, NArray(<<>>)), Call1("reverse", X),
+           Call1("sort", NArray(<<NNum(IntV(3)), NNum(IntV(1)), NNum(IntV(2))>>)), NArray(<<NRange(NNum(IntV(1)), NNum(IntV(3)))>>), Call1("distinct", X) }
+Twice(b, f, a1, a2) == NBlock(<<NAssign("b", b), NAssign("p", NCall(V(f), <<V("b"), a1>>)), NAssign("q", NCall(V(f), <<V("b"), a2>>)), NArray(<<NArray(<<V("p")>>), NArray(<<V("q")>>), NArray(<<V("b")>>)>>)>>)
+AliasProgs == {Twice(b, "append", NNum(IntV(8)), NNum(IntV(9))) : b \in Bases} \cup {Twice(b, "append", NArray(<<NNum(IntV(8)), NNum(IntV(7))>>), NArray(<<NNum(IntV(9))>>)) : b \in Bases}
+              \cup {NBlock(<<NAssign("b", b), NAssign("p", Call1("reverse", V("b"))), NAssign("q", Call2("append", V("b"), NNum(IntV(9)))), NArray(<<NArray(<<V("p")>>), NArray(<<V("q")>>), NArray(<<V("b")>>)>>)>>) : b \in Bases}
+              \cup {NBlock(<<NAssign("b", b), NAssign("p", Call2("append", V("b"), NNum(IntV(8)))), NAssign("q", Call2("append", V("p"), NNum(IntV(9)))), NAssign("r", Call2("append", V("p"), NNum(IntV(7)))),
+                              NArray(<<NArray(<<V("q")>>), NArray(<<V("r")>>), NArray(<<V("p")>>)>>)>>) : b \in Bases}
+
 AggProgs == { Call1("sum", X), Call1("max", X), Call1("min", X), Call1("average", X), Call1("count", X) }
 MissProgs == { Call1("count", Missing), Call1("sum", Missing), Call1("max", Missing), Call1("reverse", Missing), Call2("map", Missing, V("string")),
                Call2("filter", Missing, V("string")), Call2("append", Missing, Missing), Call1("distinct", X), Call2("zip", Missing, X) }
@@ -56,6 +65,7 @@ Init == /\ \/ \E p \in HofProgs \cup ArrProgs, a \in AllArrs : case = MkCase(p, 
            \/ \E p \in AggProgs \cup {Call2("reduce", X, NLambda(<<"a", "b">>, NNumOp("+", V("a"), V("b"))))}, a \in NumArrs : case = MkCase(p, a)
            \/ \E p \in AggProgs, a \in AllArrs : case = MkCase(p, a)
            \/ \E p \in HofProgs \cup ArrProgs \cup AggProgs, s \in Scalars : case = MkCase(p, s)
+           \/ \E p \in AliasProgs, a \in Arrs(NumDom, 3) \cup Arrs(NumDom, 2) \cup Arrs(NumDom, 1) : case = MkCase(p, a)
            \/ \E p \in MissProgs : case = MkCase(p, Arr(<<IntV(1)>>))
         /\ out = Pending
 Next == EvaluateCase
